@@ -348,9 +348,14 @@ def reset_events(view, fn):
     return out
 
 
-def r_reset(ctx, view):
+def r_reset(ctx, view, only=None):
     prog = view.prog
     ctx.cur = view
+    if only:
+        n0 = len(ctx.obs)
+        r_reset(ctx, view)
+        ctx.obs[n0:] = [o for o in ctx.obs[n0:] if any(("::%s" % w) in o.key or o.key.startswith("Drain") for w in only)]
+        return
     for name in ("drain", "clear"):
         f = prog.fn("store::Store::" + name)
         ctx.anchor("Store::" + name, f is not None)
@@ -545,10 +550,16 @@ def keymut_sources(view):
     return out
 
 
-def r_keymut(ctx, view):
+def r_keymut(ctx, view, only=None):
     prog = view.prog
     ctx.cur = view
     src = keymut_sources(view)
+    if only:
+        # restrict to the named sub-rules (obligations of the others are computed but dropped)
+        n0 = len(ctx.obs)
+        r_keymut(ctx, view)
+        ctx.obs[n0:] = [o for o in ctx.obs[n0:] if o.key.split(":")[0] in only]
+        return
     # k1: the set of functions that can obtain &mut I equals the sanctioned set
     for k in sorted(set(src) | set(KEYMUT_SANCTIONED)):
         if k in src and k in KEYMUT_SANCTIONED:
@@ -782,7 +793,7 @@ def places_of_stmt(s):
         if k in rv:
             out.append(rv[k])
     for k in ("op", "a", "b"):
-        if k in rv and rv[k]["k"] in ("copy", "move"):
+        if k in rv and isinstance(rv[k], dict) and rv[k]["k"] in ("copy", "move"):
             out.append(rv[k]["place"])
     for o in rv.get("ops", []):
         if o["k"] in ("copy", "move"):
